@@ -38,6 +38,8 @@ func c02Catalogue() []c02Case {
 	hc.Name, hc.HdrChangeAt = "hdr-change-at-gop", 2
 	hm := av
 	hm.Name, hm.HdrChangeAt, hm.HdrChangeMid = "hdr-change-mid-gop", 2, true
+	ha := av
+	ha.Name, ha.HdrChangeAt, ha.HdrChangeMid, ha.HdrChangeAudioOnly = "aac-hdr-change-mid-gop", 2, true, true
 	mm := av
 	mm.Name, mm.MidMeta = "mid-gop-metadata", true
 	long := av
@@ -55,7 +57,7 @@ func c02Catalogue() []c02Case {
 			if g == 0 && cp != 0 {
 				continue
 			}
-			for _, sh := range []gen.Shape{av, vo, ao, hc, hm, mm, long, g711, opus, hv, he, hx} {
+			for _, sh := range []gen.Shape{av, vo, ao, hc, hm, ha, mm, long, g711, opus, hv, he, hx} {
 				out = append(out, c02Case{Name: sh.Name, Shapes: []gen.Shape{sh}, Gop: g, Cap: cp, Kinds: kinds})
 			}
 			// re-publish histories: same name, different tracks
@@ -250,7 +252,7 @@ func c02JudgeMsgConsumer(x *c02Ctx, rec *consumerRec, sawVideoBefore bool) {
 	}
 	var gops [][]int // published gops in [start, j): media frames from each key frame on
 	hdrChanged := false
-	lastV := -2
+	lastV, lastA := -2, -2
 	for i := start; i < j; i++ {
 		p := pub[i]
 		if p.Kind == gen.Vsh {
@@ -258,6 +260,14 @@ func c02JudgeMsgConsumer(x *c02Ctx, rec *consumerRec, sawVideoBefore bool) {
 				hdrChanged = true
 			}
 			lastV = i
+		}
+		if p.Kind == gen.Ash {
+			// a new AAC sequence header is a header change too: GOPs cached before it hold audio frames
+			// that the joiner could only decode with the header that is no longer in force
+			if lastA != -2 {
+				hdrChanged = true
+			}
+			lastA = i
 		}
 		if !p.IsMedia() || len(p.Payload) == 0 {
 			continue
@@ -864,7 +874,7 @@ func init() {
 			return n + 8
 		},
 		CaseTimeout: func(string) time.Duration { return 5 * time.Minute },
-		Rule: "one case = one whole-server run of a catalogue entry (stream shape × gop_num{0,1,2} × frame cap{0,3}, half of the entries with rtmp merge_write_size 512 or 2048; shapes: A/V (H.264, H.265 classic, H.265 enhanced-RTMP with and without composition offsets, i.e. CodedFrames / CodedFramesX packets), video-only, audio-only, G.711, Opus+video, sequence-header change at a GOP boundary and mid-GOP, mid-GOP metadata, long GOP, and re-publish histories A/V→audio-only, audio-only→A/V, A/V→A/V) in which an RTMP, an HTTP-FLV and an HTTP-TS joiner are attached at EVERY message index (publisher paused, exact admission index). " +
+		Rule: "one case = one whole-server run of a catalogue entry (stream shape × gop_num{0,1,2} × frame cap{0,3}, half of the entries with rtmp merge_write_size 512 or 2048; shapes: A/V (H.264, H.265 classic, H.265 enhanced-RTMP with and without composition offsets, i.e. CodedFrames / CodedFramesX packets), video-only, audio-only, G.711, Opus+video, sequence-header change at a GOP boundary and mid-GOP, a change of the AAC sequence header alone mid-GOP, mid-GOP metadata, long GOP, and re-publish histories A/V→audio-only, audio-only→A/V, A/V→A/V) in which an RTMP, an HTTP-FLV and an HTTP-TS joiner are attached at EVERY message index (publisher paused, exact admission index). " +
 			"oracle (Appendix A.1 of DESIGN.md): latest metadata/sequence headers before media and nothing else; header-in-force register equals the header each frame was published under; first video frame is a key frame; replayed GOPs are the last min(gop_num, #keys) GOPs, oldest first, prefixes cut only at cap/cap+1; live continues at the next message (or next key frame when nothing was replayed and the incarnation has video); audio-only incarnations get one of the next 3 audio frames; TS: PAT,PMT first, first video PES random-access with SPS/PPS of the header in force and carrying the key frame the replay rule names (oldest of the last min(gop_num,#keys) GOPs, else the next key frame; never a frame of an earlier incarnation). rtmp, http-flv and http-ts get different gop_num / cap values in two thirds of the cases (each protocol has its own setting). cell = protocol × shape × gop × cap × join class. thorough repeats the catalogue with other seeds (frame sizes / timestamps). Plus RTSP-to-RTSP cases (audio: AAC, none, or G.711 whose frames begin with bytes that read as IDR/SPS/PPS NAL headers - an audio packet must never end a joiner's wait): a publisher over interleaved TCP whose frames span many RTP packets and up to 10 subscribers whose PLAY completes between two packets, six of them between two fragments of a key frame - the first video packet each receives must start a key-frame access unit.",
 		Assumptions: []string{"reference RTMP/FLV/TS decoders (harness/ref)", "generated streams are decodable from their start (first video frame after a sequence header is a key frame)",
 			"RTSP joiners of an RTMP-published stream are covered by C06's RTSP consumer start checks; RTSP joiners of an RTSP-published stream by the rtsp-join cases here"},
